@@ -392,55 +392,94 @@ func CheckSat(script, dir, name string, timeout time.Duration) (string, []Solver
 // syntactically, the tautology eq(a,b) or not eq(a,b) puts the term eq(a,b) on the table, which fires the
 // (skolemised) extensionality axiom. Pure hints: they do not change the meaning of the query.
 func extHints(f *TermFactory, goals []*Term) []*Term {
-	apps := map[string][]*Term{}
-	seen := map[int]bool{}
-	var walk func(t *Term)
-	walk = func(t *Term) {
-		if seen[t.id] {
-			return
-		}
-		seen[t.id] = true
-		if strings.HasPrefix(t.op, "spec$") && !t.bound {
-			apps[t.op] = append(apps[t.op], t)
-		}
-		for _, a := range t.args {
-			walk(a)
-		}
-	}
-	for _, g := range goals {
-		walk(g)
-	}
 	var out []*Term
 	done := map[[2]int]bool{}
-	var names []string
-	for n := range apps {
-		names = append(names, n)
-	}
-	sortStrings(names)
-	for _, n := range names {
-		as := apps[n]
-		if len(as) > 12 {
-			as = as[:12]
+	addHint := func(a, b *Term) {
+		if a == b || !strings.HasPrefix(string(a.sort), "Seq$") || a.sort != b.sort {
+			return
 		}
-		for i := 0; i < len(as); i++ {
-			for j := i + 1; j < len(as); j++ {
-				for k := range as[i].args {
-					a, b := as[i].args[k], as[j].args[k]
-					if a == b || !strings.HasPrefix(string(a.sort), "Seq$") || a.sort != b.sort {
-						continue
-					}
-					key := [2]int{a.id, b.id}
-					if a.id > b.id {
-						key = [2]int{b.id, a.id}
-					}
-					if done[key] || len(out) >= 60 {
-						continue
-					}
-					done[key] = true
-					e := f.SEq(a, b)
-					out = append(out, f.mk("or", SBool, "", e, f.mk("not", SBool, "", e)))
+		key := [2]int{a.id, b.id}
+		if a.id > b.id {
+			key = [2]int{b.id, a.id}
+		}
+		if done[key] || len(out) >= 40 {
+			return
+		}
+		done[key] = true
+		e := f.SEq(a, b)
+		if e.op == "true" || e.op == "false" {
+			return
+		}
+		out = append(out, f.mk("or", SBool, "", e, f.mk("not", SBool, "", e)))
+	}
+	collect := func(t *Term) map[string][]*Term {
+		apps := map[string][]*Term{}
+		seen := map[int]bool{}
+		var walk func(t *Term)
+		walk = func(t *Term) {
+			if seen[t.id] {
+				return
+			}
+			seen[t.id] = true
+			if strings.HasPrefix(t.op, "spec$") && !t.bound {
+				apps[t.op] = append(apps[t.op], t)
+			}
+			for _, a := range t.args {
+				walk(a)
+			}
+		}
+		walk(t)
+		return apps
+	}
+	pair := func(xs, ys []*Term) {
+		if len(xs) > 8 {
+			xs = xs[:8]
+		}
+		if len(ys) > 8 {
+			ys = ys[:8]
+		}
+		for _, x := range xs {
+			for _, y := range ys {
+				if x == y {
+					continue
+				}
+				for k := range x.args {
+					addHint(x.args[k], y.args[k])
 				}
 			}
+		}
+	}
+	var flat []*Term
+	for _, g := range goals {
+		if g.op == "and" {
+			flat = append(flat, g.args...)
+		} else {
+			flat = append(flat, g)
+		}
+	}
+	for _, g := range flat {
+		if g.op == "=>" && len(g.args) == 2 {
+			// applications in the conclusion against applications in the assumptions (and among the conclusion)
+			ra, pa := collect(g.args[0]), collect(g.args[1])
+			var names []string
+			for n := range pa {
+				names = append(names, n)
+			}
+			sortStrings(names)
+			for _, n := range names {
+				pair(pa[n], ra[n])
+				pair(pa[n], pa[n])
+			}
+			continue
+		}
+		all := collect(g)
+		var names []string
+		for n := range all {
+			names = append(names, n)
+		}
+		sortStrings(names)
+		for _, n := range names {
+			pair(all[n], all[n])
 		}
 	}
 	return out
